@@ -8,6 +8,7 @@ import (
 	"github.com/internetarchive/Zeno/internal/pkg/log"
 	"github.com/internetarchive/Zeno/internal/pkg/reactor"
 	"github.com/internetarchive/Zeno/internal/pkg/stats"
+	"github.com/internetarchive/Zeno/internal/pkg/verifhook"
 	"github.com/internetarchive/Zeno/pkg/models"
 )
 
@@ -85,6 +86,7 @@ func Stop() {
 			}
 			logger.Debug("reset seed", "id", seed)
 		}
+		verifhook.AtKV("lq.stop.reset", "", "", len(seedsToReset))
 		once = sync.Once{}
 		logger.Info("stopped")
 	}
